@@ -141,6 +141,10 @@ for _p in SUITE_PROPS:
 
 
 ROUND4 = {
+    "C03": " Round 4: refused-append histories (every thread append kind with an injected failure of its first / second log append: the sidecar never holds a frame the log lacks, also after a restart); a task whose child keeps the pipes and writes after the shell exited.",
+    "C07": " Round 4: runs whose session snapshot cannot be written are closed all the same; a provider that never stops asking for a barred tool: the run ends at the call budget; System.tla's run-ended-before-session deviation refuted.",
+    "C09": " Round 4: threads whose messages were answered by runs in the determinism / cache-fault families; the whole cache directory lost and rebuilt from truth.",
+    "C16": " Round 4: whatever a follow-up answers is answered under the call id the provider issued (ids beyond the schema's 64 characters).",
     "C01": " Round 4: store-level writers of every append kind at once with every sidecar line delayed until a later one is in the sidecar (sidecar order, then restart + appends); whole-system histories with request dumps judged by System.tla's numbering guard; Apalache proves the inductive invariant of the numbering protocol (spec/apalache/SeqLock.tla: any log length, three writers, crash anywhere) and refutes the narrowed critical section.",
     "C02": " Round 4: damaged-store no-op family (thread index lost / garbage / empty x log clean / torn / seq gap; ensure_default and every read add nothing after a restart); concurrent appenders on one log with frames of 10 B .. 48 KB (only whole lines, one per acknowledged append).",
     "C05": " Round 4: acknowledged means on disk for every writer family: at every log.flushed point of generated whole-system histories the last line of the file is the frame just appended.",
